@@ -65,12 +65,34 @@ Definition pre_violated (a : astate) (o : op) : bool :=
   | _ => false
   end.
 
-(* class of a step: 0 = none, 1..3 = known defect regions, 4 = outside the interface contract *)
+(* side condition of the Finalise case of the bisimulation, evaluated at run time (not a known
+   defect: it has never been observed false outside the aftermath of C16.stale_dirty_index):
+   every live object that Finalise does NOT treat as dirty is clean (equal to its persisted
+   image), and every non-zero dirty slot of an object that is written back has its original
+   value cached (commitState silently skips slots that are not) — i.e. this Finalise loses no write *)
+Definition obj_cleanb (p : pers) (x : addr) (o : obj) : bool :=
+  match load p x with
+  | Some o0 => (o_bal o =? o_bal o0) && (o_nonce o =? o_nonce o0) && (o_hash o =? o_hash o0)%N &&
+               negb (o_suic o) && forallb (fun kv : key * Z => kv.2 =? pslot p x kv.1) (o_dirty o)
+  | None => false
+  end.
+Definition slots_cachedb (o : obj) : bool :=
+  forallb (fun kv : key * Z => (kv.2 =? 0) || bool_decide (is_Some (o_oidx o !! kv.1))) (o_dirty o).
+Definition fin_okb (a : astate) : bool :=
+  forallb (fun xo : addr * obj =>
+             if bool_decide (is_Some (dirty_set a !! xo.1)) then doomed a xo || slots_cachedb xo.2
+             else obj_cleanb (a_pers a) xo.1 xo.2) (a_objs a).
+Definition fin_unchecked (a : astate) (o : op) : bool :=
+  match o with Finalise | BlockCommit => negb (fin_okb a) | _ => false end.
+
+(* class of a step: 0 = none, 1..3 = known defect regions, 4 = outside the interface contract,
+   5 = the run-time side condition of the Finalise case is false *)
 Definition step_class (a : astate) (o : op) : nat :=
   if trig_residue a o then 1%nat
   else if trig_create_over a o then 2%nat
   else if trig_stale a o then 3%nat
   else if pre_violated a o then 4%nat
+  else if fin_unchecked a o then 5%nat
   else 0%nat.
 Definition step_ok (a : astate) (o : op) : bool := Nat.eqb (step_class a o) 0.
 
@@ -184,7 +206,7 @@ Definition core_op (o : op) : bool :=
   | AddRefund _ | SubRefund _ | GetRefund
   | GetCommittedState _ _ | GetState _ _ | SetState _ _ _
   | Suicide _ | HasSuicided _ | Exist _ | Empty _
-  | Snapshot | RevertToSnapshot _ => true
+  | Snapshot | RevertToSnapshot _ | Finalise | BlockCommit => true
   | _ => false
   end.
 (* a revert that the adapter survives with its dirties index intact (complement of
